@@ -72,7 +72,7 @@ static unsigned char fixedkey[8] = {23,82,107,6,35,78,88,7};
 
 /*
  * Encrypt a password and store it in a file.  Returns 0 if successful,
- * 1 if the file could not be written.
+ * 1 if the password could not be encrypted or the file could not be written.
  */
 
 int
@@ -82,13 +82,6 @@ rfbEncryptAndStorePasswd(char *passwd, char *fname)
     unsigned int i;
     unsigned char encryptedPasswd[8];
     int out_len;
-
-    if ((fp = fopen(fname,"w")) == NULL) return 1;
-
-	/* windows security sux */
-#ifndef WIN32
-    fchmod(fileno(fp), S_IRUSR|S_IWUSR);
-#endif
 
     /* pad password with nulls */
 
@@ -101,8 +94,19 @@ rfbEncryptAndStorePasswd(char *passwd, char *fname)
     }
 
     /* Do encryption in-place - this way we overwrite our copy of the plaintext
-       password */
-    encrypt_rfbdes(encryptedPasswd, &out_len, fixedkey, encryptedPasswd, sizeof(encryptedPasswd));
+       password. Never store the plaintext: without encryption, fail before
+       the file is touched. */
+    if (!encrypt_rfbdes(encryptedPasswd, &out_len, fixedkey, encryptedPasswd, sizeof(encryptedPasswd))) {
+	memset(encryptedPasswd, 0, sizeof(encryptedPasswd));
+	return 1;
+    }
+
+    if ((fp = fopen(fname,"w")) == NULL) return 1;
+
+	/* windows security sux */
+#ifndef WIN32
+    fchmod(fileno(fp), S_IRUSR|S_IWUSR);
+#endif
 
     for (i = 0; i < 8; i++) {
 	putc(encryptedPasswd[i], fp);
@@ -144,8 +148,10 @@ rfbDecryptPasswdFromFile(char *fname)
 
     fclose(fp);
 
-    if(!decrypt_rfbdes(passwd, &out_len, fixedkey, passwd, 8))
+    if(!decrypt_rfbdes(passwd, &out_len, fixedkey, passwd, 8)) {
+	free(passwd);
 	return NULL;
+    }
 
     passwd[8] = 0;
 
